@@ -16,17 +16,28 @@ def explore(ctx):
     lines = numgrid.num_cases(ctx.rng, nrandom)
     m, i, dis = common.differential(lines)
     bad = common.diff_report(ctx, lines, m, i, dis)
+    # the n-ary builtins through the evaluator: folds and comparison chains over 3-5 operands
+    ncases, ntests = numgrid.nary_cases(ctx.rng, 3000 if ctx.quick else 200000)
+    nres, nndis = common.run_cases(ctx, ncases)
+    nbad = numgrid.nary_oracle(ntests, nres)
+    for t, msg in nbad[:5]:
+        ci, kind, op, ops, pos = t
+        ctx.violation({"lines": ncases[ci]["lines"], "meta": {"op": op, "operands": ops}}, nres[ci][0], nres[ci][1], note=msg)
     distinct = len({l for l, o in zip(lines, m) if not numgrid.trivial_num(l) and not o.startswith("(err")})
     kinds = {}
     for l in lines:
         kinds[l.split(" ")[1]] = kinds.get(l.split(" ")[1], 0) + 1
     return {
-        "evaluations": len(lines),
+        "evaluations": len(lines) + len(ntests),
+        "nary_tests": len(ntests), "nary_disagreements": nndis, "nary_oracle_failures": len(nbad),
         "distinct_nontrivial": distinct,
         "traces_validated_against_impl": len(lines) - len(dis),
         "disagreements": len(dis),
         "rule": "complete grid (%d numbers: boundary integers, reduced/unreduced ratios of both signs, binary32 classes) "
                 "for every unary and binary Number operation through the public Rust API, plus %d seeded random cases; "
+                "plus n-ary calls of + - * / max min = < <= > >= on 3-5 operands (grid and random numbers, unreduced ratios bound through "
+                "the API, nearly sorted tuples with equal neighbours) through the evaluator, compared model vs implementation and "
+                "against the implementation's own left-nested binary spelling (folds) / adjacent pairs (chains); "
                 "non-trivial = not an error and some operand outside {-1,0,1}; model and implementation compared on "
                 "variant, components and binary32 bit pattern" % (len(numgrid.grid()), nrandom),
         "exhaustive": False,
@@ -42,5 +53,7 @@ def replay(ctx, path):
         common.build_driver()
         common.build_harness()
     m, i, dis = common.differential([case])
+    if isinstance(case, dict):
+        return common.replay_case(ctx, path)
     print("case:", case, "\nmodel:", m[0], "\nimplementation:", i[0])
     return 1 if dis else 0
